@@ -21,7 +21,7 @@ RULE = ("slot-allocation machine: state = sequence of envelopes handed to image 
         "{small, exactly fits, one byte too large} and (thorough) all 2^11 role subsets x 4 base addresses.")
 ASSUMPTIONS = ["svmc/refhex.py, svmc/refcbor.py, svmc/refuuid.py", "layout tables transcribed from cmd_image.py:319-505 (the property's anchors)",
                "component IDs of another shape than [INSTLD_MFST, uuid] are outside the property (nothing asserted)"]
-BOUNDS = {"quick": "sequences depth 2 over 15 letters x 2 SoCs x {defaults, build configuration}; 36 variants x 11 roles x 2 SoCs; full 11-role sets",
+BOUNDS = {"quick": "sequences depth 2 over 15 letters x 2 SoCs x {defaults, build configuration, build configuration re-assigning default pairs}; 36 variants x 11 roles x 2 SoCs; full 11-role sets",
           "thorough": "sequences depth 3; all 2^11 subsets x 2 SoCs x 4 storage base addresses"}
 
 ROLES = ["SEC_TOP", "SEC_SDFW", "SEC_SYSCTRL", "RAD_RECOVERY", "RAD_LOCAL_1", "RAD_LOCAL_2", "APP_ROOT", "APP_RECOVERY", "APP_LOCAL_1",
@@ -62,10 +62,19 @@ def write_kconfig(path, roles=ROLES):
             fh.write(f'SB_CONFIG_SUIT_MPI_{kconfig_name(r)}_CLASS_NAME="svmc_{r.lower()}"\n')
 
 
+SWAP = {"APP_LOCAL_1": "RAD_LOCAL_1", "RAD_LOCAL_1": "APP_LOCAL_1", "APP_ROOT": "APP_LOCAL_2", "APP_RECOVERY": "RAD_RECOVERY",
+        "RAD_RECOVERY": "APP_RECOVERY", "SEC_TOP": "APP_LOCAL_3"}    # configured role -> role whose DEFAULT pair it is given
+
+
 def names_for(role, soc, cfg):
     """-> (vendor, class) or None if the role cannot be addressed in this configuration mode."""
     if cfg == "kconfig":
         return CFG_VENDOR, f"svmc_{role.lower()}"
+    if cfg == "swapped":
+        # the build configuration gives this role the pair that is another role's default: the configuration wins
+        inv = {v: k for k, v in SWAP.items()}
+        src = inv.get(role)
+        return ("nordicsemi.com", DEFAULT_CLASS[soc][src]) if src else None
     c = DEFAULT_CLASS[soc].get(role)
     return ("nordicsemi.com", c) if c else None
 
@@ -200,6 +209,12 @@ def run_boot(seq_specs, soc, cfg, base, agg, key, label, via_main=False, sample=
         if cfg == "kconfig":
             kc = os.path.join(d, "sysbuild.config")
             write_kconfig(kc)
+        elif cfg == "swapped":
+            kc = os.path.join(d, "sysbuild.config")
+            with open(kc, "w") as fh:
+                for src, dst in SWAP.items():
+                    fh.write(f'SB_CONFIG_SUIT_MPI_{kconfig_name(dst)}_VENDOR_NAME="nordicsemi.com"\n'
+                             f'SB_CONFIG_SUIT_MPI_{kconfig_name(dst)}_CLASS_NAME="{DEFAULT_CLASS[soc][src]}"\n')
         files, model, expect_reject = [], {}, None
         for i, spec in enumerate(seq_specs):
             try:
@@ -319,7 +334,7 @@ LETTERS = [{"role": r} for r in ROLES] + [{"kind": "unknown-class"}, {"kind": "n
 
 
 def seq_init():
-    return [((soc, cfg), ("init", soc, cfg)) for soc in ("nrf54h20", "nrf9280") for cfg in ("kconfig", "defaults")]
+    return [((soc, cfg), ("init", soc, cfg)) for soc in ("nrf54h20", "nrf9280") for cfg in ("kconfig", "defaults", "swapped")]
 
 
 def seq_step(hist, agg, expand):
